@@ -538,3 +538,12 @@ impl TrigramIndex {
         grams
     }
 }
+// @item rust/core/src/store/trigram_index.rs :: impl TrigramIndex::{new,add,prepare,collect_grams} (lifted)
+pub fn cmp_counts(__a: &(usize, &usize), __b: &(usize, &usize)) -> (ret: Ordering)
+    // C18 / C06: the comparator of the candidate cut orders by shared-gram counter, larger first
+    ensures *__a.1 > *__b.1 ==> ret == Ordering::Less, *__a.1 < *__b.1 ==> ret == Ordering::Greater, *__a.1 == *__b.1 ==> ret == Ordering::Equal, // [C18 C06]
+{
+    let (_, count1) = __a;
+    let (_, count2) = __b;
+    count2.cmp(count1)
+}
